@@ -690,7 +690,10 @@ impl Model {
                     // swallowed an earlier change of ours that is only surfacing now
                     // (any cutoff it has had counts: the swallowed change may date from before a
                     // later set_cutoff)
-                    if !c && matches!(s.rk, RK::MapRef { .. } | RK::MapRefQ { .. }) && (s.had_noneq_cutoff || !s.cutoff.only_suppresses_equal()) {
+                    // (likewise a cutoff this view itself has had: under Cutoff::Never, say, it latched a
+                    // "changed" verdict on an equal projection while its input view did not pass the
+                    // change on, so it was not recomputed then)
+                    if !c && matches!(s.rk, RK::MapRef { .. } | RK::MapRefQ { .. }) && (s.had_noneq_cutoff || !s.cutoff.only_suppresses_equal() || self.nodes[h].cutoff_set) {
                         maybe = true;
                     }
                     c
